@@ -198,6 +198,36 @@ func c08Oracle(c wireCase) ev.Verdict {
 		vd.Classes = append(vd.Classes, "perm:non-identity")
 	}
 
+	// a receiver that is used again: the same nas.Message value first receives another message of this type, then
+	// this one; it must then hold this one, as a fresh receiver does
+	if c.Prev != nil && b.dispatchable() {
+		if _, pv, perr := c.Prev.value(); perr == nil {
+			if _, prevRef, perr := b.spans(pv); perr == nil {
+				m := nas.NewMessage()
+				var e1, e2 error
+				_, site := ev.Guard(func() error {
+					p1 := append([]byte{}, prevRef...)
+					e1 = m.PlainNasDecode(&p1)
+					p2 := append([]byte{}, ref...)
+					e2 = m.PlainNasDecode(&p2)
+					return nil
+				})
+				if site != "" {
+					return plain("reused-receiver:panic:"+site, "decoding two %s messages into one nas.Message panicked", c.Msg)
+				}
+				if e1 == nil {
+					vd.Classes = append(vd.Classes, "reused-receiver")
+					if e2 != nil {
+						return plain("reused-receiver:error", "a nas.Message that had received another %s refuses this one: %v", c.Msg, e2)
+					}
+					if d := diffMsg(dec2, m); d != "" {
+						return plain("reused-receiver:stale-content", "a nas.Message that had received another %s (%s) and then this one (%s) differs from a fresh receiver at %s", c.Msg, short(prevRef), short(ref), d)
+					}
+				}
+			}
+		}
+	}
+
 	// results stay what they were: the bytes and the message obtained in (i) are still held here while
 	// the codec has meanwhile been used for this message again (ii, iii) and is now used for other
 	// messages; a result that a LATER call of the library rewrites was never a function of its arguments
